@@ -2,7 +2,7 @@
    Only statements, `exact`, and Print Assumptions live here.  Models: PtnFile.v; proofs: PtnFileIter.v (iterator), PtnFileFacts.v / PtnFileEnum.v / PtnFileRoundtrip.v (tokeniser),
    PtnFileTotal.v / PtnFileSafe.v / PtnFileTotalThm.v (totality). *)
 From Coq Require Import NArith ZArith List Bool.
-Require Import Board Move GameOver PtnMove Playtak Tps PtnFile PtnFileIter PtnFileFacts PtnFileEnum PtnFileRoundtrip PtnFileTotal PtnFileSafe PtnFileTotalThm.
+Require Import Board Move GameOver PtnMove Playtak Tps PtnFile PtnFileIter PtnFileFacts PtnFileEnum PtnFileRoundtrip PtnFileTotal PtnFileSafe TotalFacts PtnFileTotalThm.
 Import ListNotations.
 
 (* Once Next has returned false - because a recorded move was illegal (error latch) or the game was over / the record
@@ -54,31 +54,20 @@ Theorem C12_parse_ptn_total : forall s : list N, parse_ptn s <> Panic.
 Proof. exact parse_ptn_total. Qed.
 Print Assumptions C12_parse_ptn_total.
 
-(* Full statement wanted (DESIGN 5.13):
-     forall s, match parse_ptn s with Ok g => initial_position g <> Panic /\ replay_all g <> Panic | _ => True end.
-   Proved: everything except the TPS parser (Tps.v, owned by C10/C13 and being repaired: on its present text an empty cell or a lone
-   S/C is still Panic), which appears as the premise `parse_tps (TPS tag) <> Panic`: for EVERY byte string, ParsePTN does not panic;
-   if it succeeds, InitialPosition does not panic unless ParseTPS does on the TPS tag; from every position InitialPosition returns -
-   including TPS positions with arbitrarily tall stacks and wrapped reserves - the replay through the Iterator and every
-   PositionAtMove(n, colour) never panic: no index out of range in MovePreallocated, flood-fill fuel sufficient in GameOver, loop
-   fuel sufficient (invariant `safe` of PtnFileSafe.v: size in 3..8, Height/Stacks of length size^2, both colour bitboards inside the
-   board mask). *)
-Theorem C12_ptn_file_total_partial : forall basis (s : list N),
+(* PTN files are total (DESIGN 5.13, the PTN-file clause of C13): for EVERY byte string, ParsePTN does not panic; if it succeeds,
+   InitialPosition does not panic (Size tag range check, TPS parser total: TotalFacts.parse_tps_total), and from every position
+   InitialPosition returns - including TPS positions with arbitrarily tall stacks and wrapped reserves - the full replay through the
+   Iterator (replay_all) and every PositionAtMove(n, colour) never panic: no index out of range in MovePreallocated, flood-fill fuel
+   sufficient in GameOver, loop fuel sufficient.  Invariant used: `safe` of PtnFileSafe.v (size in 3..8, Height/Stacks of length
+   size^2, both colour bitboards inside the board mask), established by FromSquares and preserved by MovePreallocated. *)
+Theorem C12_ptn_file_total : forall basis (s : list N),
   match parse_ptn s with
   | Panic => False
   | Err => True
   | Ok g =>
-    (parse_tps basis (find_tag tag_tps (tags g)) <> Panic -> initial_position basis g <> Panic) /\
+    initial_position basis g <> Panic /\
     (forall p0, initial_position basis g = Ok p0 -> replay_all basis g p0 <> Panic) /\
-    (parse_tps basis (find_tag tag_tps (tags g)) <> Panic -> forall n c, position_at_move basis g n c <> Panic)
+    (forall n c, position_at_move basis g n c <> Panic)
   end.
-Proof. exact ptn_file_total_partial. Qed.
-Print Assumptions C12_ptn_file_total_partial.
-
-(* Without a TPS tag the statement is unconditional. *)
-Corollary C12_ptn_file_total_no_tps : forall basis (s : list N) g, parse_ptn s = Ok g -> find_tag tag_tps (tags g) = [] ->
-  initial_position basis g <> Panic /\
-  (forall p0, initial_position basis g = Ok p0 -> replay_all basis g p0 <> Panic) /\
-  (forall n c, position_at_move basis g n c <> Panic).
-Proof. exact ptn_file_total_no_tps. Qed.
-Print Assumptions C12_ptn_file_total_no_tps.
+Proof. exact ptn_file_total. Qed.
+Print Assumptions C12_ptn_file_total.
